@@ -36,6 +36,7 @@ type zvRootRow struct {
 	Inter  []string `json:"intermediates_sha"`
 	Create uint64   `json:"create"`
 	Modify uint64   `json:"modify"`
+	RotOut int64    `json:"rotated_out_at"` // UnixNano, 0 = never
 }
 
 func zvSha(s string) string {
@@ -47,6 +48,9 @@ func zvRow(r *structs.CARoot) zvRootRow {
 	row := zvRootRow{ID: r.ID, Active: r.Active, Cert: zvSha(r.RootCert), Create: r.CreateIndex, Modify: r.ModifyIndex}
 	for _, p := range r.IntermediateCerts {
 		row.Inter = append(row.Inter, zvSha(p))
+	}
+	if !r.RotatedOutAt.IsZero() {
+		row.RotOut = r.RotatedOutAt.UnixNano()
 	}
 	return row
 }
@@ -122,7 +126,19 @@ type zvDelegate struct {
 	checkedOnce bool
 	log         []string    // CA commands seen (witness)
 	harvest     []zvHarvest // (key, root cert) pairs the built-in provider persisted
-	failApply   error       // injected raft failure (unused unless set)
+
+	// committed: the root table as it stood after the LAST command applied through the FSM. The store
+	// may differ from it only by applying another command: every command entry point compares the
+	// store with it BEFORE applying (objects handed out by the store must never be edited in place).
+	committed     string
+	committedRows []zvRootRow
+	haveCommitted bool
+
+	// fault injection for the NEXT roots(+config) command of the manager (one shot):
+	//   "error": the raft apply fails (leadership lost) and nothing is applied
+	//   "cas"  : another writer re-writes the (same) root set first, so the manager's CAS index is stale
+	inject     string
+	injectDone string // what was injected (for the caller)
 }
 
 func (d *zvDelegate) State() *state.Store { return d.r.State() }
@@ -140,6 +156,7 @@ func (d *zvDelegate) generateCASignRequest(csr string) *structs.CASignRequest {
 }
 
 func (d *zvDelegate) ApplyCALeafRequest() (uint64, error) {
+	d.observeBeforeApply("leaf-index-increment", false)
 	d.idx++
 	req := structs.CALeafRequest{Op: structs.CALeafOpIncrementIndex, Datacenter: d.conf.Datacenter}
 	resp := d.r.Apply(d.idx, structs.ConnectCALeafRequestType|structs.IgnoreUnknownTypeFlag, &req)
@@ -156,6 +173,32 @@ func (d *zvDelegate) ApplyCALeafRequest() (uint64, error) {
 // ApplyCARequest = raftApplyMsgpack(ConnectCARequestType, req): an error RESULT of the FSM is
 // returned as the error, like Server.raftApplyEncoded does.
 func (d *zvDelegate) ApplyCARequest(req *structs.CARequest) (interface{}, error) {
+	if d.inject != "" && (req.Op == structs.CAOpSetRootsAndConfig || req.Op == structs.CAOpSetRoots) {
+		mode := d.inject
+		d.inject = ""
+		// what does the store show at the moment the command is handed to raft?
+		clean := d.observeBeforeApply(fmt.Sprintf("manager:%s(injected %s)", req.Op, mode), true)
+		switch mode {
+		case "error":
+			d.injectDone = mode
+			if len(d.log) < 400 {
+				d.log = append(d.log, fmt.Sprintf("manager:%s -> INJECTED raft failure, not applied", req.Op))
+			}
+			return nil, errors.New("zv: injected raft failure: leadership lost")
+		case "cas":
+			if clean {
+				// a concurrent writer commits the SAME root set first: the table index moves
+				idx, cur, _ := d.r.State().CARoots(nil)
+				same := &structs.CARequest{Op: structs.CAOpSetRoots, Index: idx}
+				for _, r := range cur {
+					same.Roots = append(same.Roots, r.Clone())
+				}
+				if b, ok := d.applyObserved(same, "interloper").(bool); ok && b {
+					d.injectDone = mode
+				}
+			}
+		}
+	}
 	resp := d.applyObserved(req, "manager")
 	if err, ok := resp.(error); ok {
 		return nil, err
@@ -176,6 +219,7 @@ func (d *zvDelegate) witness(extra map[string]any) map[string]any {
 //   - a command leaves the root table either untouched (content AND indexes) or equal to the
 //     requested set as a whole — never a mixture; commands that carry no roots never touch it.
 func (d *zvDelegate) applyObserved(req *structs.CARequest, origin string) any {
+	d.observeBeforeApply(origin+":"+string(req.Op), origin == "manager" && (req.Op == structs.CAOpSetRoots || req.Op == structs.CAOpSetRootsAndConfig))
 	st := d.r.State()
 	preIdx, pre := zvRoots(st)
 	d.idx++
@@ -240,7 +284,43 @@ func (d *zvDelegate) applyObserved(req *structs.CARequest, origin string) any {
 		}
 		seen[r.ID] = true
 	}
+	d.setCommitted()
 	return resp
+}
+
+// setCommitted records the root table as left by the command that was just applied (or restored).
+func (d *zvDelegate) setCommitted() {
+	_, rows := zvRoots(d.r.State())
+	d.committedRows = rows
+	d.committed = core.JSON(rows)
+	d.haveCommitted = true
+}
+
+// observeBeforeApply looks at the store at the moment a command is handed to raft, BEFORE it is
+// applied: the root table must still be exactly what the last applied command left (content,
+// Active flags, RotatedOutAt, indexes) and, once initialised, show exactly one active root. A
+// difference means somebody edited objects owned by the state store outside any raft command: the
+// half-finished update is visible to every reader and survives if the command never commits.
+// Returns false if the store was found edited.
+func (d *zvDelegate) observeBeforeApply(what string, rotation bool) bool {
+	if !d.haveCommitted {
+		d.setCommitted()
+		return true
+	}
+	_, now := zvRoots(d.r.State())
+	d.run.Count("store-observed-before-apply")
+	if cur := core.JSON(now); cur != d.committed {
+		key := "C12:roots:store-changed-outside-raft"
+		if rotation {
+			key = "C12:roots:rotation:store-objects-edited-before-apply"
+		}
+		d.run.Violation(key,
+			fmt.Sprintf("history %s: when %s was handed to raft (not yet applied) the root table already differed from what the last applied command left; it shows %d active roots: committed=%s store=%s",
+				d.name, what, zvActiveCount(now), d.committed, cur),
+			d.witness(map[string]any{"about_to_apply": what, "committed": d.committedRows, "store_now": now, "active_now": zvActiveCount(now)}))
+		return false
+	}
+	return true
 }
 
 // ---------------------------------------------------------------------------------------------
@@ -337,6 +417,7 @@ func (e *zvEnv) failover() error {
 	}
 	e.d.r.Close()
 	e.d.r = nr
+	e.d.setCommitted() // a restored store: the snapshot is the committed state
 	e.d.idx += 3
 	e.d.conf = zvServerConf(zvBaseCAConfig()) // a new server process: start-up config, the stored one wins
 	e.m = zvNewManager(e.d)
